@@ -709,6 +709,7 @@ def check(run):
     # grid files: writers/readers of the three forms (+ OpenDX header), model vs real code, round-trip oracle
     gridio.run_io(run, V.rng("C15io"), unit, model, 240 if quick else 6000)
     gridio.run_round3(run, V.rng("C15r3"), unit, model, 200 if quick else 5000)
+    gridio.run_round4(run, V.rng("C15r4"), unit, model, 300 if quick else 6000)
 
     # histogram scenarios through the engine simulator
     d = V.scratch("C15")
